@@ -217,7 +217,11 @@ class Findings:
                 allf = json.load(f)
         except FileNotFoundError:
             allf = []
-        self.entries = [e for e in allf if e.get("property") == pid]
+        def _applies(e):
+            p = e.get("property")
+            return pid == p or (isinstance(p, list) and pid in p)
+
+        self.entries = [e for e in allf if _applies(e)]
         self.open = [e for e in self.entries if e.get("status") == "open"]
         self.fixed = [e for e in self.entries if e.get("status") == "fixed"]
         self.still_failing: Dict[str, dict] = {}  # id -> entry (open entries whose replay still fails)
@@ -335,12 +339,14 @@ class Ctx:
         state = {"first_fail": None, "failed": {}, "best": None}
 
         def run_one(case):
+            # NOTE: there must be exactly ONE raise site below — Hypothesis identifies "the same bug" by the
+            # raise location, and a second site makes its replay look flaky, which disables shrinking.
             h = case_hash(case)
-            if h in state["failed"]:
-                raise AssertionError(state["failed"][h].msg)
-            if state["first_fail"] is not None and time.time() - state["first_fail"] > shrink_budget_s:
-                return  # shrink budget used up: stop exploring, keep best failure so far
-            f = oracle(case)
+            f = state["failed"].get(h)
+            if f is None:
+                if state["first_fail"] is not None and time.time() - state["first_fail"] > shrink_budget_s:
+                    return  # shrink budget used up: stop exploring, keep best failure so far
+                f = oracle(case)
             if f is None:
                 return
             e = self.findings.match(f.sig)
